@@ -705,6 +705,8 @@ class Interp:
                 return SAFE_ATTR_CALLS[full]         # a whitelisted library function used as a value (compile_ = re.compile)
             if isinstance(e.value, ast.Name) and e.value.id not in env and e.value.id not in self.extra_names and e.value.id not in self.consts:
                 bs = mod.syms.get(e.value.id)
+                if bs is not None and bs.kind in ('ext', 'mod') and '%s.%s' % (bs.target, e.attr) in PURE_IMPORTS:
+                    return PURE_IMPORTS['%s.%s' % (bs.target, e.attr)]       # import itertools; itertools.islice
                 if bs is not None and bs.kind == 'mod':
                     # a module (or package) of the repository imported by name: its functions, classes and constants
                     tm = self.prog.modules.get(bs.target)
@@ -764,6 +766,8 @@ class Interp:
                     return ('#classof', o.cls)
                 m = self.prog.lookup_method(o.cls.qn, e.attr) if o.cls else None
                 if m is not None:
+                    if any(isinstance(d, ast.Name) and d.id == 'property' for d in m.node.decorator_list):
+                        return self.invoke(m, [], {}, o)        # a read-only property: the getter is run
                     return ('#bound', m, o)
                 if o.cls is not None and all(b.split('.')[-1] in ('object', 'dict', 'OrderedDict') for b in self.prog.external_bases(o.cls.qn)):
                     r = Raised('no attribute %s on %s' % (e.attr, o.cls.name))      # the class is fully known: an AttributeError
@@ -995,6 +999,10 @@ class Interp:
         if isinstance(fn, ast.Attribute) and isinstance(fn.value, ast.Name) and fn.value.id not in env and fn.value.id not in self.extra_names \
                 and fn.value.id not in self.consts and mod.syms.get(fn.value.id) is not None and mod.syms[fn.value.id].kind == 'mod':
             return self.apply(self.expr(fn, env, mod), args, kwargs)        # a function of a repository module imported by name
+        if isinstance(fn, ast.Attribute) and isinstance(fn.value, ast.Name) and fn.value.id not in env and fn.value.id not in self.extra_names \
+                and fn.value.id not in self.consts and mod.syms.get(fn.value.id) is not None \
+                and '%s.%s' % (mod.syms[fn.value.id].target, fn.attr) in PURE_IMPORTS:
+            return self.apply(self.expr(fn, env, mod), args, kwargs)        # import itertools; itertools.islice(...)
         if isinstance(fn, ast.Attribute):
             # method on a plain Python value
             try:
